@@ -474,11 +474,94 @@ def p_C11(ctx):
     return ctx.finish("histories Evaluate ; Scale(c) / SetArea(c*A) ; Evaluate with c in {1/64,1/8,1/2,2,16,1024,3,1/10} and area factors {2,1/4,10}; results of scaled runs are logged in units of c so that homogeneity is equality of the logged integers; RER, f_match and the DHW fraction (value or error class) must not move")
 
 
+def sched_stats(ctx):
+    """orders of the id loops seen per case (NOTE lines of the trace specifications)"""
+    import math
+    seen = {}
+    for n in ctx.notes:
+        if "sched" in n:
+            seen.setdefault(n["case"], set()).add(json.dumps(n["sched"]))
+    possible = 0
+    got = 0
+    multi = 0
+    for c, s in seen.items():
+        sched = json.loads(next(iter(s)))
+        groups = {}
+        for ev, car, _id in sched:
+            if ev != "Sort":
+                groups[(ev, car)] = groups.get((ev, car), 0) + 1
+        p = 1
+        for k in groups.values():
+            p *= math.factorial(k)
+        possible += p
+        got += min(len(s), p)
+        if p > 1:
+            multi += 1
+    return {"cases_with_several_orders": multi, "orders_seen": got, "orders_possible": possible}
+
+
+def comp_cases(st, reps, evaluate):
+    for c in vlib.mc_cases(st):
+        c["parse_log"] = True
+        c["reps"] = reps
+        if evaluate:
+            c.update({"fac": {"mode": "loc", "loc": "PENINSULA"}, "kexp": [0, 1], "area": [1, 1], "lm": False, "runs": [{"tag": "base"}]})
+        else:
+            c["parse_only"] = True
+        yield c
+
+
+def p_C05(ctx):
+    st = ctx.mc("MC_Comp", "MC_Comp_C05_quick.cfg" if ctx.quick else "MC_Comp_C05_thorough.cfg")
+    ctx.replay(comp_cases(st, 6 if ctx.quick else 24, False), "lattice", "Trace_C05")
+    ctx.extra["lattice_files"] = ctx.ncases
+    def more(cs):
+        for c in cs:
+            c["parse_log"] = True
+            c["parse_only"] = True
+            c["reps"] = 4
+            c["parse_q"] = 2
+            yield c
+    ctx.replay(more(file_cases(None)), "files", "Trace_C05")
+    ctx.replay(more(rnd(ctx, 300, 10000, None, integer=True, aux=True)), "random", "Trace_C05")
+    ctx.extra.update(sched_stats(ctx))
+    ctx.nontrivial = set(range(ctx.ncases))
+    ctx.samples = [{"case": 1, "input": ctx.cases[1]["src"]["comps"], "note": "declared lines of the first lattice file; the Parse event adds the hook snapshots, the parsed result and its re-normalisation"}]
+    ctx.assumptions = ["values are logged at 10^-4 kWh (lattice) / 10^-2 (files, random) and compared with one unit of slack", TRUST,
+                       "model level: MC_Comp (all schedules of the normalisation state machine): Confluent, KeepsDeclared, Idempotent",
+                       "files whose exact recomputation leaves 32 bits are reported as unjudged"]
+    return ctx.finish("every file of the MC_Comp C05 family (TLC-enumerated tuples of system profiles with negative / shared ids) is parsed by the real parser several times (fresh hash order each time, recorded by the hooks); TLC checks the closed form max(0, use - declared) per system and step, bag inclusion of the declared lines, sortedness and idempotence; conformance to the state machine under the observed schedule is DRIFT")
+
+
+def p_C06(ctx):
+    st = ctx.mc("MC_Comp", "MC_Comp_C06_thorough.cfg")
+    ctx.replay(stride(comp_cases(st, 3 if ctx.quick else 12, True), 2 if ctx.quick else 1, ctx.seed % 2 if ctx.quick else 0), "lattice", "Trace_C06")
+    ctx.extra["lattice_files"] = ctx.ncases
+    def more(cs):
+        for c in cs:
+            c["parse_log"] = True
+            c["reps"] = 4
+            c["parse_q"] = 2
+            c["runs"] = [{"tag": "base"}]
+            yield c
+    ctx.replay(more(file_cases(None)), "files", "Trace_C06")
+    ctx.replay(more(rnd(ctx, 300, 10000, None, integer=True, aux=True)), "random", "Trace_C06")
+    ctx.extra.update(sched_stats(ctx))
+    ctx.nontrivial = set(range(ctx.ncases))
+    ctx.samples = [{"case": 1, "input": ctx.cases[min(ctx.cases)]["src"].get("comps"), "note": "declared lines of one lattice file"}]
+    ctx.assumptions = ["values are logged at 10^-4 kWh (lattice) / 10^-2 (files, random)", TRUST,
+                       "mixed systems (one EPB service next to NEPB / COGEN uses) only have to conserve energy: the statement does not fix them",
+                       "model level: MC_Comp (all schedules): Confluent, AuxAssigned (P_C06), Idempotent"]
+    return ctx.finish("every file of the MC_Comp C06 family (1-3 systems with auxiliaries: single / multi service, cooling, zero-output steps, missing outputs, auxiliaries as the only electricity) is parsed (several hash orders) and evaluated; TLC checks P_C06 per system on (declared, parsed) and that the assigned auxiliaries are EPB electricity use of the balance; quick tier replays half of the 3-system family")
+
+
 PROPS = {
     "C01": p_C01,
     "C02": p_C02,
     "C03": p_C03,
     "C04": p_C04,
+    "C05": p_C05,
+    "C06": p_C06,
     "C08": p_C08,
     "C09": p_C09,
     "C11": p_C11,
